@@ -363,6 +363,87 @@ def run_offers_primaries(prog, rn):
     return sorted(set(problems))
 
 
+# ------------------------------------------------------------------------------------------------ R-2.6
+LIST_BREAKERS = {"insert", "sort", "reverse", "remove", "pop", "clear"}
+
+
+def _state_lists(prog):
+    """Attributes of Scope / Context / PreProcessors objects that start as an empty list in __init__."""
+    out = set()
+    owners = ["Context", "PreProcessors"] + [c.name for c in prog.subclasses("Scope", strict=False)]
+    for cname in owners:
+        c = prog.classes.get(cname)
+        init = c.methods.get("__init__") if c is not None else None
+        if init is None:
+            continue
+        for n in walk_fn(init.node):
+            if isinstance(n, ast.Assign) and ((isinstance(n.value, ast.List) and not n.value.elts) or
+                                              (isinstance(n.value, ast.Call) and text(n.value.func) == "list" and not n.value.args)):
+                for t in n.targets:
+                    if isinstance(t, ast.Attribute) and text(t.value) == "self":
+                        out.add(t.attr)
+    return out
+
+
+def rule_last_element(run, prog):
+    from ..dataflow import expand_aliases
+    from .c03 import dominating_atoms
+    run.rule("R-2.6", "contradiction rule, last-element protocol: for every state list (attribute of a Scope / Context / "
+             "PreProcessors object created empty) that some rule reads positionally from its end (`<x>.ATTR[-k]`, belief: the "
+             "last elements are the ones recorded last), every producer `<y>.ATTR.append(v)` is unconditional with respect to "
+             "the list's own content (no test on ATTR dominates it in the CFG), and nothing inserts into / sorts / reverses / "
+             "removes from / rebinds ATTR: otherwise `ATTR[-1]` is not the element just recorded and the rule that reads it "
+             "checks something else (or nothing)", floor=10)
+    lists = _state_lists(prog)
+    consumers, producers, breakers = {}, {}, {}
+
+    def attr_of(e, fn):
+        x = expand_aliases(fn, e)
+        return x.attr if isinstance(x, ast.Attribute) and x.attr in lists else None
+
+    for fn in prog.fns:
+        for n in walk_fn(fn.node):
+            if isinstance(n, ast.Subscript) and isinstance(n.ctx, ast.Load) and isinstance(n.slice, ast.UnaryOp) \
+                    and isinstance(n.slice.op, ast.USub) and isinstance(n.slice.operand, (ast.Constant, ast.Name)):
+                a = attr_of(n.value, fn)
+                if a:
+                    consumers.setdefault(a, {}).setdefault(fn.key, n)
+            elif isinstance(n, ast.Call) and isinstance(n.func, ast.Attribute):
+                a = attr_of(n.func.value, fn)
+                if a and n.func.attr in ("append", "extend"):
+                    producers.setdefault(a, []).append((fn, n))
+                elif a and n.func.attr in LIST_BREAKERS:
+                    breakers.setdefault(a, []).append((fn, n, f".{n.func.attr}()"))
+            elif isinstance(n, (ast.Assign, ast.AugAssign, ast.Delete)):
+                tg = n.targets if isinstance(n, (ast.Assign, ast.Delete)) else [n.target]
+                for t in tg:
+                    if isinstance(t, ast.Subscript) and attr_of(t.value, fn):
+                        breakers.setdefault(attr_of(t.value, fn), []).append((fn, n, "item / slice store"))
+                    elif isinstance(t, ast.Attribute) and t.attr in lists and fn.name != "__init__" and not isinstance(n, ast.Delete) \
+                            and not (isinstance(n, ast.AugAssign) and isinstance(n.op, ast.Add)):
+                        breakers.setdefault(t.attr, []).append((fn, n, "rebinding"))
+    n_triples = 0
+    for attr in sorted(consumers):
+        cons = consumers[attr]
+        prods = producers.get(attr, [])
+        brk = breakers.get(attr, [])
+        for pf, call in sorted(prods, key=lambda x: (x[0].key, x[1].lineno, x[1].col_offset)):
+            guards = [text(atom, 70) for atom, neg, _ in dominating_atoms(pf, call)
+                      if any(isinstance(x, ast.Attribute) and x.attr == attr for x in ast.walk(atom))]
+            for ckey in sorted(cons):
+                n_triples += 1
+                run.ob("R-2.6", f"{pf.key}::last-element[{attr}]<-{ckey.split('::')[-1]}", not guards and not brk,
+                       f"{ckey.split('::')[-1]} reads `{text(cons[ckey], 40)}` as the element just recorded, but "
+                       + (f"this append to {attr} only happens when `{guards[0]}` holds (a test on the list itself: a value "
+                          f"already present is not appended again, so the last element is an older one)" if guards else
+                          f"{brk[0][0].qual} changes the order / content of {attr} ({brk[0][2]} at line {brk[0][1].lineno})"
+                          if brk else "ok"),
+                       call if guards or not brk else brk[0][1], producer=pf.key, consumer=ckey)
+    run.note("R-2.6: positional readers per state list: " + ", ".join(f"{a}: {len(c)}" for a, c in sorted(consumers.items()))
+             + "; lists never read from the end: " + ", ".join(sorted(lists - set(consumers))))
+    run.require(n_triples >= 10, f"only {n_triples} (list, producer, consumer) triples found (floor 10)")
+
+
 def check(run, prog):
     rm = registry_model(prog)
     run.require(len(rm.primaries) >= 19, f"only {len(rm.primaries)} Primary rules found (floor 19)")
@@ -531,6 +612,9 @@ def check(run, prog):
         run.ob("R-2.3", f"{fnkey}::as-modelled", not sem[part],
                f"{what} differ from the registry model the other rules are built on: " + "; ".join(sem[part][:2]),
                prog.fn(fnkey).node)
+
+
+    rule_last_element(run, prog)
 
 
 def _ancestors(n):
